@@ -40,6 +40,9 @@ static const std::uint64_t K_3lvl[] = {0x0000000000000000ULL, 0x0000000000000001
 static const std::uint64_t K_fall[] = {0x0000, 0x0001, 0x0100, 0x0101, 0x20000};
 // minimal fall-off shape: root I4 { 00 -> I4 {00,01}, 02 -> leaf }
 static const std::uint64_t K_fall2[] = {0x0000, 0x0001, 0x0200};
+// larger size classes (built through the growth chain I4 -> I16 -> I48 -> I256)
+static const std::uint64_t K_i48[] = {B | 0x02, B | 0x07, B | 0x0c, B | 0x11, B | 0x16, B | 0x1b, B | 0x20, B | 0x25, B | 0x2a, B | 0x2f, B | 0x34, B | 0x39, B | 0x3e, B | 0x43, B | 0x48, B | 0x4d, B | 0x52, B | 0x57, B | 0x5c, B | 0x61};
+static const std::uint64_t K_i256[] = {B | 0x02, B | 0x07, B | 0x0c, B | 0x11, B | 0x16, B | 0x1b, B | 0x20, B | 0x25, B | 0x2a, B | 0x2f, B | 0x34, B | 0x39, B | 0x3e, B | 0x43, B | 0x48, B | 0x4d, B | 0x52, B | 0x57, B | 0x5c, B | 0x61, B | 0x66, B | 0x6b, B | 0x70, B | 0x75, B | 0x7a, B | 0x7f, B | 0x84, B | 0x89, B | 0x8e, B | 0x93, B | 0x98, B | 0x9d, B | 0xa2, B | 0xa7, B | 0xac, B | 0xb1, B | 0xb6, B | 0xbb, B | 0xc0, B | 0xc5, B | 0xca, B | 0xcf, B | 0xd4, B | 0xd9, B | 0xde, B | 0xe3, B | 0xe8, B | 0xed, B | 0xf2, B | 0xf7, B | 0xfc};
 static const std::uint64_t K_sparse[] = {0x0000000000000000ULL, 0x8000000000000000ULL, 0xFF00000000000000ULL};
 
 static void build(db_t& d, const std::uint64_t* keys, unsigned n) {
@@ -50,7 +53,7 @@ static void build(db_t& d, const std::uint64_t* keys, unsigned n) {
   }
 }
 
-#define MAXREC 8
+#define MAXREC 56
 struct rec { unsigned n; unsigned halt_at; unsigned calls_after_halt; bool halted; std::uint64_t keys[MAXREC]; std::uint8_t vals[MAXREC]; std::size_t ksz[MAXREC]; std::size_t vsz[MAXREC]; };
 
 template <class V> static bool visit(rec& r, const V& v) {
@@ -120,7 +123,7 @@ template <unsigned N> static void run_scan(const std::uint64_t (&keys)[N], int m
   HARNESS(from_fwd_##name) { run_scan(K_##name, 2); } \
   HARNESS(from_rev_##name) { run_scan(K_##name, 3); } \
   HARNESS(range_##name) { run_scan(K_##name, 4); }
-SC(leaf) SC(i4_3) SC(i16_5) SC(2lvl) SC(3lvl) SC(fall) SC(fall2) SC(sparse)
+SC(leaf) SC(i4_3) SC(i16_5) SC(2lvl) SC(3lvl) SC(fall) SC(fall2) SC(sparse) SC(i48) SC(i256)
 
 // empty index: no visits whatever the bound
 HARNESS(scan_empty) {
